@@ -24,6 +24,7 @@ RULE = ('strictly monotonic 1-D coordinates (ascending/descending, exactly '
         '(batches); non-trivial = batch holds in-range and out-of-range '
         'values; distinct = digest of the spec.')
 RULE += (' Also: axes of 13-40 cells with repeated query values, a second coordinate in the same file (y = 2x with its own bounds) looked up after the first, cftime noleap calendars, coordinates read from disk.')
+RULE += (' One case in 25 looks values up on every strictly monotonic coordinate of the object bpch1, bpch2 or arlpackedbit return for a reference image, with the bounds variables the reader itself built (same query batches, same oracle; float32 centres without bounds: queries within float32 rounding of a derived edge are left out).')
 ASSUMPTIONS = [
     'a value exactly on an interior edge may be attributed to either '
     'neighbour; exact ties of "nearest" accept both neighbours',
@@ -50,7 +51,20 @@ def ncases(tier):
     return N[tier]
 
 
+READER_KINDS = ['bpch1', 'arl', 'bpch2', 'arl']
+
+
 def gen(rng, idx, tier, seed):
+    if idx % 25 == 12:
+        # the coordinates (and bounds variables) a library reader builds
+        from .. import readerfiles
+        return {'mode': 'reader', 'seed': int(rng.integers(1 << 30)),
+                'reader': readerfiles.gen_spec(
+                    rng, kind=READER_KINDS[(idx // 25) % len(READER_KINDS)]),
+                'method': ['nearest', 'bounds', 'exact'][(idx // 25) % 3],
+                'clean': str(rng.choice(['none', 'mask'])),
+                'boundsopt': str(rng.choice(['ignore', 'warn', 'error'])),
+                'nanlr': bool(rng.random() < 0.5)}
     if idx % 10 == 9:
         n = int(rng.integers(2, 8))
         return {'mode': 'time', 'n': n,
@@ -468,7 +482,98 @@ def run_time(spec, res):
                  '; '.join(problems), method=spec['method'])
 
 
+def run_reader(spec, res):
+    """lookups on the coordinate variables of the object a reader returns,
+    with the bounds variables the reader itself built"""
+    from .. import readerfiles
+    install()
+    rdr = spec['reader']
+    with harness.casedir() as d:
+        f, status = readerfiles.open_reader(rdr, d)
+        res.facet('reader:%s:%s' % (rdr['kind'], status.split(':')[0]))
+        if f is None:
+            res.note('reader-gave-no-file:' + status)
+            return
+        judged = 0
+        for dk in list(f.dimensions.keys()):
+            if dk not in f.variables or dk == 'time':
+                continue
+            v = f.variables[dk]
+            if tuple(v.dimensions) != (dk,) or len(f.dimensions[dk]) < 2 or \
+                    np.dtype(v.dtype).kind not in 'fiu':
+                continue
+            c = np.asarray(v[...], 'f8')
+            dif = np.diff(c)
+            if not ((dif > 0).all() or (dif < 0).all()):
+                continue
+            n = c.size
+            e = None
+            bk = getattr(v, 'bounds', None)
+            for cand in (bk, dk + '_bounds', dk + '_bnds'):
+                if cand and cand in f.variables:
+                    b = np.asarray(f.variables[cand][...], 'f8')
+                    if b.shape == (n, 2) and np.array_equal(b[:-1, 1],
+                                                            b[1:, 0]):
+                        e = np.append(b[:, 0], b[-1, 1])
+                    elif b.shape == (n + 1,):
+                        e = b
+                    break
+            ps = dict(spec, bounds='nx2' if e is not None else 'none',
+                      dir='asc' if dif[0] > 0 else 'desc',
+                      uniform=bool(np.allclose(dif, dif[0])))
+            if e is None:
+                mids = (c[:-1] + c[1:]) / 2.
+                e_ = np.concatenate([[c[0] - dif[0] / 2.], mids,
+                                     [c[-1] + dif[-1] / 2.]])
+            else:
+                e_ = e
+                if not (np.minimum(e_[:-1], e_[1:]) <= c).all() or \
+                        not (c <= np.maximum(e_[:-1], e_[1:])).all():
+                    res.note('reader-bounds-do-not-contain-centres:' + dk)
+                    continue
+            q = queries(ps, c, e_)
+            if e is None and np.dtype(v.dtype) == np.dtype('f4'):
+                # edges derived from float32 centres are defined only up to
+                # float32 rounding (0.95f + 0.05f is 1.0f, not 0.99999997):
+                # queries that close to a derived edge have no single answer
+                tol = 8 * np.finfo('f4').eps * max(np.abs(e_).max(), 1e-30)
+                q = q[np.abs(q[:, None] - e_[None, :]).min(1) > tol]
+            kw = dict(method=spec['method'], clean=spec['clean'],
+                      bounds=spec['boundsopt'])
+            if spec['nanlr']:
+                kw['left'] = np.nan
+                kw['right'] = np.nan
+            harness.WARN_LOG.clear()
+            _state['cur'] = st = {}
+            raised = None
+            try:
+                out = f.val2idx(dk, q.copy(), **kw)
+            except Exception as ex:
+                raised, out = ex, None
+            if st.get('done') or raised is not None:
+                res.hook('val2idx.contract')
+            _state['cur'] = None
+            warned = any('out of bounds' in m for _, m in harness.WARN_LOG)
+            judged += 1
+            res.facet('reader-coordinate:%s:%s' % (rdr['kind'], dk))
+            problems = judge(ps, c, e_, q, out, warned, raised)
+            if problems:
+                res.viol('wrong-index:%s:%s' % (spec['method'], ps['dir']),
+                         '%s file, coordinate %s = %s (bounds=%s), '
+                         'val2idx(%s): %s'
+                         % (rdr['kind'], dk, np.round(c, 4).tolist()[:8],
+                            ps['bounds'], kw, '; '.join(problems[:4])),
+                         method=spec['method'], dir=ps['dir'],
+                         bounds=ps['bounds'], nproblems=len(problems),
+                         exc=type(raised).__name__ if raised else None,
+                         reader=rdr['kind'], coord=dk)
+        res.ev(digest(spec), judged > 0,
+               ['mode:reader', 'method:' + spec['method']])
+
+
 def run(spec, res):
+    if spec['mode'] == 'reader':
+        return run_reader(spec, res)
     if spec['mode'] == 'time':
         run_time(spec, res)
     else:
